@@ -18,9 +18,9 @@ open Ptk.Py
 /-- absolute screen position `(y, x)` -/
 abbrev Pos := Int × Int
 abbrev Buf := List (Pos × Cell)
-abbrev Zwe := List (Pos × Text)
+abbrev Zwe := List (Pos × CText)
 /-- `(style, text)` -/
-abbrev Frag := Text × Text
+abbrev Frag := Text × CText
 
 def bufFind? : Buf → Pos → Option Cell
   | [], _ => none
@@ -31,18 +31,18 @@ def bufGet (b : Buf) (d : Cell) (p : Pos) : Cell := (bufFind? b p).getD d
 
 def bufSet (b : Buf) (p : Pos) (c : Cell) : Buf := (p, c) :: b
 
-def zweFind? : Zwe → Pos → Option Text
+def zweFind? : Zwe → Pos → Option CText
   | [], _ => none
   | (q, t) :: rest, p => if q = p then some t else zweFind? rest p
 
 /-- `zero_width_escapes[y][x] += text` (defaultdict(str)) -/
-def zweAppend (z : Zwe) (p : Pos) (t : Text) : Zwe := (p, (zweFind? z p).getD [] ++ t) :: z
+def zweAppend (z : Zwe) (p : Pos) (t : CText) : Zwe := (p, (zweFind? z p).getD [] ++ t) :: z
 
 structure CopyCfg where
   m : Table
-  wc : Char → Int
+  wc : CP → Int
   /-- `str.isprintable` per character (fast path of `get_display_width`) -/
-  printable : Char → Bool
+  printable : CP → Bool
   dflt : Cell
   /-- `write_position.xpos + move_x`, `write_position.ypos` -/
   xpos : Int
@@ -74,7 +74,7 @@ def eraseNeighbours (cfg : CopyCfg) (b : Buf) (y x : Int) : Nat → Buf
     if i = 0 then b' else bufSet b' (y, x + i) (emptyCell cfg)
 
 /-- one round of the merge loop `for pw in [2, 1]` (x, y local; `c` is the RAW character) -/
-def mergeInto (cfg : CopyCfg) (b : Buf) (x y : Int) (c : Char) (pw : Nat) : Buf :=
+def mergeInto (cfg : CopyCfg) (b : Buf) (x y : Int) (c : CP) (pw : Nat) : Buf :=
   let p : Pos := (y + cfg.ypos, x + cfg.xpos - pw)
   let prev := bufGet b cfg.dflt p
   if x - pw ≥ 0 && prev.width == pw then
@@ -82,7 +82,7 @@ def mergeInto (cfg : CopyCfg) (b : Buf) (x y : Int) (c : Char) (pw : Nat) : Buf 
   else b
 
 /-- the store part of the character loop body (after the wrap check) -/
-def storeChar (cfg : CopyCfg) (st : CopySt) (cell : Cell) (c : Char) : CopySt :=
+def storeChar (cfg : CopyCfg) (st : CopySt) (cell : Cell) (c : CP) : CopySt :=
   if st.x ≥ 0 && st.y ≥ 0 && st.x < cfg.width then
     let p : Pos := (st.y + cfg.ypos, st.x + cfg.xpos)
     let b := bufSet st.buf p cell
@@ -100,7 +100,7 @@ structure CharRes where
   stop : Bool
 
 /-- body of `for c in text:`; `onWrap` draws the continuation prefix (identity when there is none) -/
-def putChar (cfg : CopyCfg) (onWrap : CopySt → CopySt) (st : CopySt) (style : Text) (c : Char) : CharRes :=
+def putChar (cfg : CopyCfg) (onWrap : CopySt → CopySt) (st : CopySt) (style : Text) (c : CP) : CharRes :=
   let cell := mkCell cfg.m cfg.wc [c] style
   let w : Int := cell.width
   if cfg.wrap && st.x + w > cfg.width then
@@ -115,7 +115,7 @@ def putChar (cfg : CopyCfg) (onWrap : CopySt → CopySt) (st : CopySt) (style : 
 
 /-! #### `copy_line(..., is_input=False)`: no prefix, no horizontal scroll -/
 
-def plainText (cfg : CopyCfg) (style : Text) : CopySt → Text → CopySt × Bool
+def plainText (cfg : CopyCfg) (style : Text) : CopySt → CText → CopySt × Bool
   | st, [] => (st, false)
   | st, c :: cs =>
     let r := putChar cfg id st style c
@@ -131,7 +131,7 @@ def plainFrags (cfg : CopyCfg) : CopySt → List Frag → CopySt × Bool
       if stop then (st', true) else plainFrags cfg st' rest
 
 /-- `fragment_list_width(line)`: raw character widths, marked fragments excluded -/
-def fragsWidth (wc : Char → Int) : List Frag → Nat
+def fragsWidth (wc : CP → Int) : List Frag → Nat
   | [] => 0
   | (style, text) :: rest => (if isZwe style then 0 else cwidth wc text) + fragsWidth wc rest
 
@@ -156,7 +156,7 @@ structure InSt where
   st : CopySt
   wrapCount : Nat
 
-def inputText (cfg : CopyCfg) (lineno : Nat) (style : Text) : InSt → Text → InSt × Bool
+def inputText (cfg : CopyCfg) (lineno : Nat) (style : Text) : InSt → CText → InSt × Bool
   | s, [] => (s, false)
   | s, c :: cs =>
     let r := putChar cfg (drawPrefix cfg lineno (s.wrapCount + 1)) s.st style c
@@ -181,7 +181,7 @@ def explode : List Frag → List Frag
 
 /-- `while h_scroll > 0 and line: h_scroll -= get_display_width(line[0][1]); del line[:1]`
     (`dw` = the width function; since 9db5f12 the DISPLAY width: a mapped control counts as drawn) -/
-def hscrollDrop (dw : Text → Nat) : Int → List Frag → Int × List Frag
+def hscrollDrop (dw : CText → Nat) : Int → List Frag → Int × List Frag
   | h, [] => (h, [])
   | h, f :: rest => if h > 0 then hscrollDrop dw (h - dw f.2) rest else (h, f :: rest)
 
